@@ -11,8 +11,8 @@ LEVEL = "exploration"
 TECHNIQUE = "runtime reference-model monitor: table model vs all read paths of the real DataFrame after every append/overwrite/refused write/reopen"
 RULE = ("Case = one data frame (1-6 columns over text/int64/float64/bool/int8 with hostile names, 0-8 rows, five "
         "creation variants) driven through 1-12 operations from {append_rows, append_column, write_rows, write_column "
-        "by name / by index (first and last always tried), write_cell by position / by name, units, reopen, five "
-        "classes of refused writes}; after every operation column names, dtypes, columns, units, shapes, the whole "
+        "by name / by index (first and last always tried), write_rows with the indices in another order (refused, or every row where it was sent), "
+        "write_cell by position / by name, units, reopen, six classes of refused writes incl. a column with one unconvertible value}; after every operation column names, dtypes, columns, units, shapes, the whole "
         "table, every column, one row and one cell per column are compared with the model.  Distinct by (schema "
         "type multiset, creation variant, set of operation kinds, has rows); trivial = none.")
 ASSUMPTIONS = ["negative row indices are not generated (A10)",
